@@ -42,13 +42,17 @@ def run(chk, scratch):
     #    C's Store, A resumed: whoever gave up must have left the holder's lock alone
     lt, _ = common.record(vh, scratch, "c16", "locktimeout.ndjson", chk.seed, chk.tier, mode="locktimeout", timeout=3000)
     chk.cov["lock_time_out_scenarios"] = sum(1 for line in open(lt) if '"op":"Begin"' in line)
+    # 7. late heart beat (lock-based cache): the heart beat of the storing client's lock is held at its first backend call until the Store
+    #    (and with it the release of the lock) is over, then let go; then another client fetches
+    lh, _ = common.record(vh, scratch, "c16", "lateheartbeat.ndjson", chk.seed, chk.tier, mode="lateheartbeat", timeout=600)
     trace = os.path.join(scratch, "c16-trace.ndjson")
     with open(trace, "w") as out:
         out.write(open(sw).read())
         out.write("".join(line for line in open(il) if '"op":"End"' not in line))     # one End closes the whole trace
         out.write("".join(line for line in open(ho) if '"op":"End"' not in line))
         out.write("".join(line for line in open(cs) if '"op":"End"' not in line))
-        out.write(open(lt).read())
+        out.write("".join(line for line in open(lt) if '"op":"End"' not in line))
+        out.write(open(lh).read())
     chk.cov["hand_over_scenarios"] = sum(1 for line in open(ho) if '"op":"Begin"' in line)
     total = sum(1 for line in open(trace) if line.strip())
     r = vlib.run_tlc(scratch, [SPEC], "SharedCacheTrace", "SharedCacheTrace.cfg", workers=1, timeout=1800, deadlock=False,
@@ -79,7 +83,10 @@ def run(chk, scratch):
             if 100000 <= v["id"] < 200000:
                 e = ctx[0]
                 what = " (%s cache, %s backend, %s at call %d/%d: %s)" % (e["cache"], e["backend"], e["mode"], e["k"], e["of"], e["faultOp"])
-            if v["id"] >= 400000:
+            if v["id"] >= 500000:
+                what = " (late heart beat: the heart beat of A's lock held until A's Store(v1) and its release are over, then let go, on the %s backend; then B fetches: %s)" % (
+                    ctx[0].get("backend"), [(e["op"], e.get("c"), e.get("v"), e.get("result"), e.get("match"), "zombie lock" if e.get("zombie") else "") for e in ctx[1:]])
+            elif v["id"] >= 400000:
                 what = " (lock time-out: Store(v2) of A stopped %s backend calls into its critical section on the %s backend, B's Fetch gives up waiting, C's Store(v3), A resumed: %s)" % (
                     ctx[0].get("seq"), ctx[0].get("backend"), [(e["op"], e.get("c"), e.get("v"), e.get("result"), e.get("match")) for e in ctx[1:]])
             elif v["id"] >= 300000:
